@@ -1,7 +1,7 @@
 #!/bin/sh
 # stash_mut.sh Cxx : copy a finished sub-agent's deliverables to /verif/seeded_pending and remove its worktree
 c=$1
-for v in A B; do
+for v in A B C D E F; do
   if [ -d /tmp/wt_m_$c/mutation/$v ]; then
     rm -rf /verif/seeded_pending/$c-$v; mkdir -p /verif/seeded_pending/$c-$v
     for f in patch.diff demo.c build_demo.sh NOTES.md; do cp /tmp/wt_m_$c/mutation/$v/$f /verif/seeded_pending/$c-$v/ 2>/dev/null; done
